@@ -308,3 +308,88 @@ def install(reg):
     ))
     c_new = reg.contracts["biobalm._sd_attractors.attractor_candidates.compute_attractor_candidates"]
     c_new.body_lemmas = lemmas_cov
+
+
+_le1, _le2, _X = z3.Const("l!e1", LS.sort()), z3.Const("l!e2", LS.sort()), z3.Const("X!e", T.SpaceSet)
+AX_ISENUM_EMPTY = [z3.ForAll([_le1, _le2, _X], z3.Implies(z3.And(T.IsEnum(_le1, _X), LS.len(_le1) == 0, LS.len(_le2) == 0), T.IsEnum(_le2, _X)),
+                             patterns=[z3.MultiPattern(T.IsEnum(_le1, _X), T.IsEnum(_le2, _X))])]
+
+
+def install_helpers(reg):
+    """bodies of the helpers of compute_attractor_candidates"""
+    pick = lambda fn, nm: (lambda c: dict(fn(c))[nm])
+    TR2 = TTuple(TSpace, LS)
+    old = reg.contracts.pop("biobalm._sd_attractors.attractor_candidates.asp_greedy_retained_set_optimization")
+    reg.by_name.pop("asp_greedy_retained_set_optimization", None)
+
+    def pairs(c, R, cs):
+        av = AvoidOf(c.avoid_dnf)
+        R0, cs0 = (c.old.retained_set, c.old.candidate_states)
+        return [("pair_preserved", z3.Implies(T.IsEnum(cs0, ReducedSol(c.petri_net, R0, EMPTYS, av)), T.IsEnum(cs, ReducedSol(c.petri_net, R, EMPTYS, av)))),
+                ("same_variables", z3.ForAll([kn], (R[kn] >= 0) == (R0[kn] >= 0))),
+                ("never_more_candidates", z3.And(LS.len(cs) <= LS.len(cs0), LS.len(cs) >= 0)),
+                ("wf", T.wf_space(R))]
+
+    def post(c):
+        r = c.result
+        return pairs(c, TR2.get(r, 0), TR2.get(r, 1))
+
+    def inv_outer(c):
+        return pairs(c, c.retained_set, c.candidate_states)
+
+    def inv_inner(c):
+        head = c.at_head(0, "candidate_states")
+        return pairs(c, c.retained_set, c.candidate_states) + [
+            ("iterating_the_entry_keys", z3.ForAll([kn], (c.coll[kn] >= 0) == (c.retained_set[kn] >= 0))),
+            ("progress_recorded", z3.And(LS.len(c.candidate_states) <= LS.len(head), z3.Or(c.done, LS.len(c.candidate_states) < LS.len(head))))]
+
+    reg.add(Contract(
+        "biobalm._sd_attractors.attractor_candidates.asp_greedy_retained_set_optimization",
+        params=old.params, result_type=TR2, properties=("C08", "C13"),
+        requires=[lambda c: T.wf_space(c.retained_set), lambda c: LS.len(c.candidate_states) >= 0],
+        may_raise={"RuntimeError": {}}, raises={"RuntimeError": []},
+        ensures=[(nm, pick(post, nm)) for nm in ["pair_preserved", "same_variables", "never_more_candidates", "wf"]],
+        axioms=AX_AVOIDLIST + AX_ISENUM_EMPTY,
+        local_types={"retained_set": TSpace, "candidate_states": LS, "done": TBool, "retained_set_2": TSpace, "candidate_states_2": LS},
+        loops={0: LoopContract("while not done", inv_outer,
+                               variant=lambda c: [2 * LS.len(c.candidate_states) + z3.If(c.done, 0, 1)]),
+               1: LoopContract("for var in retained_set", inv_inner)},
+    ))
+
+
+def install_helpers2(reg):
+    pick = lambda fn, nm: (lambda c: dict(fn(c))[nm])
+    old = reg.contracts.pop("biobalm._sd_attractors.attractor_candidates.make_heuristic_retained_set")
+    reg.by_name.pop("make_heuristic_retained_set", None)
+
+    def contains(eng, st, coll, x, node):
+        if coll.ty == LN and x.ty == TName:
+            return MemN(coll.t, x.t)
+        return None
+    reg.add_hook("contains", contains)
+    # (the hook is consulted after the generic list case; make it take precedence for lists of names)
+    reg.hooks["contains"].insert(0, reg.hooks["contains"].pop())
+
+    def to_set(eng, st, v, node):
+        if v.ty == LN:
+            return Val(TSet(TName), z3.Lambda([kn], MemN(v.t, kn)))
+        return None
+    reg.add_hook("to_set", to_set)
+
+    reg.add(Contract(
+        "biobalm._sd_attractors.attractor_candidates.make_heuristic_retained_set",
+        params=old.params, result_type=TSpace, properties=("C08",),
+        requires=[lambda c: z3.ForAll([kn], z3.Implies(MemN(c.nfvs, kn), T.isvar(net_of(c.graph), kn))),
+                  lambda c: z3.ForAll([k_], z3.Implies(z3.And(0 <= k_, k_ < LS.len(c.avoid_dnf)), T.wf_space(LS.at(c.avoid_dnf)[k_])))],
+        ensures=[("assigns_exactly_the_nfvs", lambda c: z3.ForAll([kn], (c.result[kn] >= 0) == MemN(c.nfvs, kn))),
+                 ("wf", lambda c: T.wf_space(c.result))],
+        axioms=AX_MEMN,
+        local_types={"retained_set": TSpace, "least_common_child_space": TSpace, "least_common_nodes": TInt, "common_nodes": TInt},
+        loops={0: LoopContract("for child_space in avoid_dnf", lambda c: [
+                    ("chosen_is_wf", T.wf_space(c.least_common_child_space)), ("empty_so_far", z3.ForAll([kn], c.retained_set[kn] < 0))]),
+               1: LoopContract("for x in least_common_child_space", lambda c: [
+                    ("only_nfvs", z3.ForAll([kn], z3.Implies(c.retained_set[kn] >= 0, MemN(c.nfvs, kn)))), ("wf", T.wf_space(c.retained_set))]),
+               2: LoopContract("for x in nfvs", lambda c: [
+                    ("only_nfvs", z3.ForAll([kn], z3.Implies(c.retained_set[kn] >= 0, MemN(c.nfvs, kn)))), ("wf", T.wf_space(c.retained_set)),
+                    ("prefix_assigned", z3.ForAll([j_], z3.Implies(z3.And(0 <= j_, j_ < c.i), c.retained_set[LN.at(c.nfvs)[j_]] >= 0)))])},
+    ))
